@@ -310,8 +310,14 @@ def model_answers(ctx, calls):
         if kind == "local":
             name = rest
             z = tz.tzlocal()
-            n0 = naive.replace(tzinfo=z).tzname()
-            n1 = naive.replace(tzinfo=z, fold=1).tzname()
+            try:
+                n0 = naive.replace(tzinfo=z).tzname()
+                n1 = naive.replace(tzinfo=z, fold=1).tzname()
+            except OverflowError:
+                # tzlocal.tzname() itself overflows next to 0001-01-01 / 9999-12-31 (`dt - dst_saved`): the zone
+                # object is outside the model, its exception propagates through `_assign_tzname` unchanged
+                out[i] = "err OverflowError"
+                continue
             second.append("parser.localfinal %s %s %s" % (optname(n0), optname(n1), name))
             where.append((i, head, "local", None, toks))
         else:
@@ -335,8 +341,9 @@ def model_answers(ctx, calls):
             try:
                 n0 = naive.replace(tzinfo=z).tzname()
                 n1 = naive.replace(tzinfo=z, fold=1).tzname()
-            except Exception:
-                n0 = n1 = None
+            except OverflowError:
+                out[i] = "err OverflowError"        # as above: raised by the zone object inside `_assign_tzname`
+                continue
             second.append("parser.assign %s %s %s" % (optname(n0), optname(n1), name))
             where.append((i, head, "tzi", lab, toks))
     if second:
